@@ -586,7 +586,12 @@ def parameter_atoms(ast_rules: dict) -> collections.Counter:
             elif k == "minmax":
                 c[(k, e[2], e[3])] += 1
             elif k == "id":
-                c[(k, e[1], e[2] if len(e) > 2 else None)] += 1
+                # a tag written on a reference to a built-in rule other than EOI has nothing to attach to (those rules are silent):
+                # the front end substitutes the shared rule object and the tag is gone
+                tg_ = e[2] if len(e) > 2 else None
+                if e[1] != "EOI" and (e[1] in G.BUILTIN_NON_NULLABLE or e[1] in G.BUILTIN_NULLABLE):
+                    tg_ = None
+                c[(k, e[1], tg_)] += 1
             elif k == "group":
                 c[("tag", e[2])] += 1 if e[2] else 0
             elif k in ("peek", "pop", "drop", "peekall", "popall"):
@@ -753,6 +758,12 @@ def eval_grammar(prop: str, rng: random.Random, gname: str, gtext: str, rules_as
         return None
 
 
+DOC_TEXTS = [
+    ["escapes: \\n, \\t, \\xHH and \\u{1F600}; a path C:\\Users\\me", "ends with a backslash \\"],
+    ['quotes: "double", \'single\', """triple""" and \'\'\'triple\'\'\'', "braces {x} {0} {} and percent %s %d %(name)s"],
+    ["\\N{not a name} \\U0001 \\u12 \\x", "# not a comment, \\ and \u00e9\u2603\U0001F600"],
+    ["", "   leading blanks and a tab\t"],
+]
 BUILTIN_STARTS = ["ASCII_DIGIT", "NEWLINE", "ANY", "EOI", "ASCII_ALPHA", "ASCII_HEX_DIGIT", "ASCII_ALPHANUMERIC"]
 
 
@@ -760,6 +771,13 @@ def _eval_grammar(prop: str, rng: random.Random, gname: str, gtext: str, rules_a
     """cases: list of (start, input, k).  Appends driver lines to out['lines'] with callbacks
     in out['expect'] and records direct failures in out['direct']."""
     plan = PLANS[prop]
+    if prop in ("C01", "C07", "C06") and rules_ast is not None and not gname.startswith(("bundled:", "corpus:")) and \
+            zlib.crc32(gtext.encode("utf-8", "surrogatepass")) % 4 == 0:
+        # grammar and rule documentation with text that means something to Python, to str.format and to % formatting: it
+        # belongs to the grammar text and must not matter to anything that is generated from it
+        docs_ = DOC_TEXTS[zlib.crc32(gtext.encode("utf-8", "surrogatepass")) // 4 % len(DOC_TEXTS)]
+        first_, _, rest_ = gtext.partition("\n")
+        gtext = "".join("//! " + d_ + "\n" for d_ in docs_) + "/// " + docs_[0] + "\n" + first_ + ("\n/// " + docs_[-1] + "\n" + rest_ if rest_ else "")
     try:
         md = Modes(gtext, passes)
     except Timeout:
@@ -816,6 +834,8 @@ def _eval_grammar(prop: str, rng: random.Random, gname: str, gtext: str, rules_a
             if p_.generate() != src:
                 out["direct"].append({**base, "what": "generate() twice yields different source", "mode": "gen"})
     out["stats"]["grammars"] += 1
+    for nm_ in sorted(P.UNKNOWN_SUBCLASSES):
+        out["stats"]["unknown_expression_subclass:" + nm_] += 1
     if rules_ast is not None and not gname.startswith("bundled:"):
         # the generator's own AST against the tree the front end built from the printed text: numbers and literal text
         # (slice bounds, repetition bounds, literals, ranges, tags, modifiers) must be what the text says - the models start
@@ -974,11 +994,13 @@ def _eval_grammar(prop: str, rng: random.Random, gname: str, gtext: str, rules_a
         # the models (they fold ASCII letters only), so only the property's own oracle is applied, on the implementation
         start_silent_ = {n: bool(r.modifier & SILENT) for n, r in md.p0.rules.items()}
         seen_x = set()
-        for start, text, k in cases[:60]:
-            for a_, b_ in (("ss", "\u00df"), ("fi", "\ufb01"), ("k", "\u212a"), ("s", "\u017f"), ("SS", "\u1e9e"), ("i", "\u0130")):
-                if a_ not in text[k:]:
+        for ci_, (start, text, k) in enumerate(cases[:60]):
+            # … and U+0130, the one character whose lower() is longer than itself, put somewhere into the text (first, middle, last)
+            ins_at = [k, (k + len(text) + 1) // 2, len(text)][ci_ % 3]
+            for a_, b_ in (("ss", "\u00df"), ("fi", "\ufb01"), ("k", "\u212a"), ("s", "\u017f"), ("SS", "\u1e9e"), ("i", "\u0130"), (None, "\u0130")):
+                if a_ is not None and a_ not in text[k:]:
                     continue
-                t2 = text[:k] + text[k:].replace(a_, b_)
+                t2 = text[:k] + text[k:].replace(a_, b_) if a_ is not None else text[:ins_at] + b_ + text[ins_at:]
                 if (start, t2) in seen_x:
                     continue
                 seen_x.add((start, t2))
@@ -1433,6 +1455,26 @@ def _worker(job):
                 out["stats"]["squash_boundary_grammars"] += 1
             except Timeout:
                 out["timeouts"].append({"group": "squash-boundary", "grammar": gtext, "passes": list(PASS_NAMES)})
+            finally:
+                signal.alarm(0)
+    if prop in ("C02", "C04", "C06", "C01"):
+        # every shape of the implicit rules (silent or not, fused by the optimizer or not, referring to ordinary rules) under one
+        # list grammar x every input over {a ; blank tab #} to length 3 (4 in the thorough tier) and longer ones
+        tgrid = G.trivia_shape_grid()
+        nsht = do_bundled[1] if do_bundled else NCPU
+        mine_t = [c for j_, c in enumerate(tgrid) if j_ % nsht == shard % nsht]
+        ins_t = small_inputs("a; \t#", 4 if tier == "thorough" else 3) + ["a ;a", "a;#xa", "a #a ;a", "a\t;\ta", "a;##a", "a; a #", "ab ;  b", "a#x#;b", "a #xy# ; b", "a \n;b",
+                                               "a; \tb", "a##;b", "ab ab;a", "a;b;a b", " a;b", "a;b ", "a#a a;b"]
+        for rules in mine_t:
+            if not G.well_formed(rules):
+                continue
+            gtext = G.show_grammar_min(rules)
+            signal.alarm(120)
+            try:
+                eval_grammar(prop, rng, "trivia-shape", gtext, rules, choose_passes(rng, rng.randrange(3)), [("r", t, 0) for t in ins_t], out)
+                out["stats"]["trivia_shape_grammars"] += 1
+            except Timeout:
+                out["timeouts"].append({"group": "trivia-shape", "grammar": gtext, "passes": list(PASS_NAMES)})
             finally:
                 signal.alarm(0)
     if prop in ("C02", "C03"):
@@ -2037,6 +2079,11 @@ def run_prop(out: Outcome, level_when_proved: str = "proof") -> None:
         elif info["broken"]:
             out.unproved({"broken": "theorem " + "; ".join(info["broken"])[:1500],
                           "searched": {"cases": stats["cases"], "note": "model and implementation agree on every explored case"}})
+        elif any(k.startswith("unknown_expression_subclass:") for k in stats):
+            names_ = sorted(k.split(":", 1)[1] for k in stats if k.startswith("unknown_expression_subclass:"))
+            out.unproved({"broken": "table: the rule tables hold Expression classes the model has no constructor for (" + ", ".join(names_) +
+                                    "); they were compared as the modelled classes they derive from",
+                          "searched": {"cases": stats["cases"], "note": "model (for the base classes) and implementation agree on every explored case"}})
         elif load_errors and prop in ("C01", "C02", "C07"):
             le = load_errors[0]
             out.violation({"kind": "load", "what": f"{le[1]} while building the four modes: {le[2]}", "group": le[0], "grammar": le[3]})
